@@ -159,3 +159,24 @@ Proof.
   - destruct j as [|j]; [cbn [Z.of_nat]; change (Z.ones 0) with 0; apply pc_zero|].
     cbn [pc]. rewrite Nat2Z.inj_succ, ones_succ by lia. rewrite (Z.mul_comm 2), Z.mod_add, Z.div_add by lia. change (1 mod 2) with 1. change (1 / 2) with 0. rewrite Z.add_0_l, IH by lia. lia.
 Qed.
+
+(* ---- y & -y is the lowest set bit: 2^(trailing zeros), 0 beyond n bits *)
+Lemma land_neg_low n y : Z.land y (- y) mod 2 ^ Z.of_nat n = if ctz n y <? Z.of_nat n then 2 ^ ctz n y else 0.
+Proof.
+  revert y. induction n as [|k IH]; intros y; cbn [ctz].
+  - change (2 ^ Z.of_nat 0) with 1. rewrite Z.mod_1_r. reflexivity.
+  - pose proof (Z.div_mod y 2 ltac:(lia)) as D. pose proof (Z.mod_pos_bound y 2 ltac:(lia)) as B.
+    rewrite Nat2Z.inj_succ. replace (Z.succ (Z.of_nat k)) with (1 + Z.of_nat k) by lia.
+    destruct (Z.eqb_spec (y mod 2) 1) as [E|E].
+    + assert (L : Z.land y (- y) = 1 + 2 * 0).
+      { replace y with (1 + 2 * (y / 2)) at 1 by lia. replace (- y) with (1 + 2 * Z.lnot (y / 2)) by (unfold Z.lnot; lia).
+        rewrite land_split1 by lia. rewrite Z.land_lnot_diag. reflexivity. }
+      rewrite L. replace (0 <? 1 + Z.of_nat k) with true by (symmetry; apply Z.ltb_lt; lia). change (1 + 2 * 0) with 1. change (2 ^ 0) with 1. apply Z.mod_small. split; [lia|].
+      rewrite Z.pow_add_r by lia. pose proof (pow2_pos (Z.of_nat k) ltac:(lia)). change (2 ^ 1) with 2. lia.
+    + assert (L : Z.land y (- y) = 0 + 2 * Z.land (y / 2) (- (y / 2))).
+      { replace y with (0 + 2 * (y / 2)) at 1 by lia. replace (- y) with (0 + 2 * (- (y / 2))) by lia. rewrite land_split1 by lia. reflexivity. }
+      rewrite L. rewrite Z.add_0_l. rewrite Z.pow_add_r by lia. change (2 ^ 1) with 2. pose proof (pow2_pos (Z.of_nat k) ltac:(lia)).
+      rewrite Z.mul_mod_distr_l by lia. rewrite IH. pose proof (ctz_spec k (y / 2)) as (Cb & _ & _).
+      destruct (Z.ltb_spec (ctz k (y / 2)) (Z.of_nat k)); destruct (Z.ltb_spec (1 + ctz k (y / 2)) (1 + Z.of_nat k)); try lia.
+      rewrite Z.pow_add_r by lia. reflexivity.
+Qed.
